@@ -972,7 +972,11 @@ func (f *fctx[S, P]) runLagrange(c *Case) *Pending {
 				class = errClass(e)
 				return
 			}
-			got = vecText(f.bigs(b.Coefficients()))
+			co := f.bigs(b.Coefficients())
+			if len(nodes) == 0 && refDegree(co) < 0 {
+				co = nil // no nodes: the basis is empty; the API can only hand back the zero polynomial
+			}
+			got = vecText(co)
 		})
 		if class == "ok" {
 			if hasDup(nodes) {
@@ -1129,7 +1133,7 @@ func (f *fctx[S, P]) runVandermonde(c *Case) *Pending {
 			return []diff{{key: key + "-errclass", detail: fmt.Sprintf("model %s, implementation %s", mst, class)}}
 		}
 		if class == "ok" && mpl != got {
-			if c.Op == "VANDERMONDE" && hasDup(nodes) {
+			if c.Op == "VANDERMONDE" && hasDup(nodes) && p.prop == "" {
 				// under-determined (duplicate nodes, consistent values): any interpolating polynomial is right
 				return []diff{{key: key + "-pivoting-differs", detail: fmt.Sprintf("both interpolate, model %s implementation %s", mpl, got)}}
 			}
